@@ -239,6 +239,12 @@ PROPS = {
                  'VM wrappers (verbatim methods of lib.rs): what each VM kind hands to the interpreter / compiled code; fixed-metadata VM writes &packet[0] and one-past-the-end at the configured offsets before every execution (interpreter and Cranelift), passes the offsets to the JIT prologue - offsets <= 120 (BOUNDED)'),
             Part('jit', lambda h: h.startswith('prologue_'), lambda h, c, info=None: 'ensures:' in desc(c) and 'rsp modulo 16' not in desc(c) or (in_file(c, 'src/jit.rs') and kani.is_panic_check(c)),
                  'JIT prologue for the three (use_mbuff, update_data_ptr) modes against the x86 semantics: r1, r10, 512-byte stack, stores of mem / mem+len at mbuff+offsets'),
+            Part('interp', lambda h: h.startswith(('step_ld_abs', 'step_ld_ind')), ens('memory access log', 'register file equals'),
+                 'interpreter: absolute / indirect loads address the packet data (base = start of the packet, + imm [+ src]) and put the value in r0'),
+            Part('jit', lambda h: h.startswith(('arm_ld_abs', 'arm_ld_ind')), lambda h, c, info=None: 'data access equals spec_step' in desc(c) or 'packet base register' in desc(c),
+                 'JIT: absolute / indirect loads address the packet data and leave the packet base register as found (so the NEXT such load still does)'),
+            Part('clif', lambda h: h.startswith(('clif_ld_abs', 'clif_ld_ind')), lambda h, c, info=None: 'data access equals spec_step' in desc(c),
+                 'Cranelift: absolute / indirect loads address the packet data'),
             Part('clif', lambda h: h == 'clif_prelude', lambda h, c, info=None: 'ensures:' in desc(c) or (in_file(c, 'src/cranelift.rs') and kani.is_panic_check(c)),
                  'Cranelift function prelude (build_function_prelude, verbatim): r1 = mbuff | mem | 0 from the four ABI parameters, r10 = top of a 512-byte stack slot, instruction 0 reached without memory access'),
         ],
